@@ -121,6 +121,22 @@ def run(ctx):
       ev["exact"] = len(set(inp["vals"])) <= 8 and inp["k"] <= 5
     events.append(ev)
     ctx.count(1, nontrivial_key=("rand", j) if len(set(vals)) > 1 else None)
+  # exactly as many distinct values as keypoints (ratings, small vocabularies), and one or two more: every value
+  # must become a keypoint; num_keypoints up to 25 (the index arithmetic i / (k - 1) * (k - 1) is not exact in floats)
+  for k in range(2, 26):
+    for extra in (0, 1, 2):
+      for hw in (False, True):
+        if hw and k % 3:
+          continue
+        base = np.sort(rng.choice(np.arange(-60, 120), size=k + extra, replace=False))
+        vals = rng.permutation(np.repeat(base, rng.integers(1, 4, size=len(base))))
+        w = rng.integers(1, 4, size=len(vals)) if hw else None
+        inp = mk(vals, w, hw, None, None, None, k, "quantiles", "mean")
+        ev = call(tfl, premade_lib, inp, scale=16.0, offset=0.0)
+        if ev["ev"] == "Keypoints":
+          ev["exact"] = False
+        events.append(ev)
+        ctx.count(1, nontrivial_key=("distinct", k, extra, hw))
   # the config helpers fill feature / label keypoints obeying the same rules
   try:
     fcs = [tfl.configs.FeatureConfig(name="a", pwl_calibration_num_keypoints=4),
